@@ -512,6 +512,7 @@ func loopsOf(body *ast.BlockStmt) map[string]ast.Stmt {
 func assignStmtOf(body *ast.BlockStmt, name string, occ int) ast.Stmt {
 	var found ast.Stmt
 	n := 0
+	skipInit := map[ast.Stmt]bool{}
 	ast.Inspect(body, func(m ast.Node) bool {
 		if found != nil {
 			return false
@@ -549,6 +550,13 @@ func assignStmtOf(body *ast.BlockStmt, name string, occ int) ast.Stmt {
 			// anchor on the occ-th statement that is (or assigns the result of) a call of the named function
 			var call *ast.CallExpr
 			var stmt ast.Stmt
+			if st, ok := m.(ast.Stmt); ok && skipInit[st] {
+				// the init statement of an `if`: counted with the if statement
+				return true
+			}
+			if ifs, ok := m.(*ast.IfStmt); ok && ifs.Init != nil {
+				skipInit[ifs.Init] = true
+			}
 			switch x := m.(type) {
 			case *ast.FuncLit:
 				return false
@@ -963,6 +971,10 @@ func nestedCallNamed(s ast.Stmt, want string) *ast.CallExpr {
 		// a call inside a compound condition: the assert is checked on the paths that fall through the if statement,
 		// old(e) is the state in which the condition starts to be evaluated
 		exprs = []ast.Expr{x.Cond}
+		if as, ok := x.Init.(*ast.AssignStmt); ok {
+			// `if v, ok := f(...); ok { ... }`
+			exprs = append(exprs, as.Rhs...)
+		}
 	}
 	var found *ast.CallExpr
 	for _, e := range exprs {
